@@ -404,8 +404,14 @@ impl<'a> ParserState<'a> {
     /// - the function shouldn't be called while pos == 0, but this case would behave like pos==1
     pub(crate) fn get_line_offset(&self) -> u32 {
         if self.token_cursor.pos > 1 && self.token_cursor.pos < self.token_cursor.tokens.len() {
-            let prev_line = self.token_cursor.tokens[self.token_cursor.pos - 2].line;
-            let prev_fileid = self.token_cursor.tokens[self.token_cursor.pos - 2].fileid;
+            let prev_token = &self.token_cursor.tokens[self.token_cursor.pos - 2];
+            let mut prev_line = prev_token.line;
+            let prev_fileid = prev_token.fileid;
+            if prev_token.ttype == A2lTokenType::Comment {
+                // the line number of a comment is the line where it starts, but a block comment can span several lines
+                let comment_text = self.get_token_text(prev_token);
+                prev_line += comment_text.bytes().filter(|c| *c == b'\n').count() as u32;
+            }
             let cur_line = self.token_cursor.tokens[self.token_cursor.pos - 1].line;
             let cur_fileid = self.token_cursor.tokens[self.token_cursor.pos - 1].fileid;
 
